@@ -204,6 +204,38 @@ def make_loss(c, theta_init=None):
         return cls(np.array(free, dtype=float), c.m, x0_arg, c.t0, c.times, y, c.state_arg, **kw)
 
 
+def share_caller_arrays(rng, c, prob=0.5):
+    """With probability prob the case hands ONE float ndarray of initial values to every loss object built for it."""
+    c.x0_as_array = rng.random() < prob
+    c.x0_array = np.array(c.x0, dtype=float)
+    return c.x0_as_array
+
+
+def disturb_with_sibling(rng, c):
+    """A second loss object is built from the same caller-owned data (same x0 ndarray when shared) with free initial values and is
+    evaluated through the initial-value entry points at OTHER initial values.  Nothing it does may change what the first object, built
+    from the same data, computes.  Returns the number of sibling calls made (exceptions of the sibling are not judged here)."""
+    saved = (c.target_param, c.target_state)
+    calls = 0
+    try:
+        c.target_state = rng.sample(c.states, rng.randint(1, c.nS))
+        sib = make_loss(c)
+        x0b = [c.x0[c.states.index(s_)] * rng.uniform(0.5, 1.5) + 0.1 for s_ in c.target_state]
+        arg = np.array(free_theta(c, c.theta) + x0b, dtype=float)
+        for name in ("costIV", "sensitivityIV", "costIV"):
+            try:
+                with contextlib.redirect_stdout(io.StringIO()), np.errstate(all="ignore"):
+                    getattr(sib, name)(arg.copy())
+                calls += 1
+            except Exception:
+                pass
+    except Exception:
+        pass
+    finally:
+        c.target_param, c.target_state = saved
+    return calls
+
+
 def free_theta(c, theta):
     """The free-parameter vector in the order the loss object expects (target_param order, else model order)."""
     if c.target_param is None:
